@@ -268,6 +268,16 @@ def c03_family(tier, n):
     for b1, b2 in [('pass', 'pass'), ('slow30', 'pass'), ('slow150', 'skip1'), ('skip1', 'slow30')]:
         out.append(timely(scn(f'tee/{b1}/{b2}', [src(n, required='a,b'), sink('a', ['src'], b1), sink('b', ['src;main>x'], b2)])))
 
+    # required outputs whose ids are prefixes of one another, connecting in either order (outputs_required must match whole ids)
+    for late in ['det', 'det2']:
+        fs = [src(n, required='det,det2'), sink('det', ['src']), sink('det2', ['src;main>x'])]
+
+        for f in fs:
+            if f['name'] == late:
+                f['start_at'] = 150
+
+        out.append(timely(scn(f'tee-required-prefix/late-{late}', fs)))
+
     # tee-rejoin without skipping branches (the property excludes skipping on rejoined paths)
     for b1, b2 in [('pass', 'pass'), ('slow30', 'pass'), ('pass', 'slow150'), ('add', 'slow30'), ('slow150', 'slow30')]:
         out.append(timely(scn(f'rejoin2/{b1}/{b2}', rejoin(n, 2, [b1, b2], ['b1', 'b2;main>other']))))
